@@ -212,6 +212,9 @@ def try_replay(name, res, uni, x, r, hint_src, conf_src, extra):
             out['tried'].append(dict(bound=b, obj=obj_src, r=rv, reproduced=ok, detail=detail[:300]))
             if ok:
                 out.update(reproduced=True, obj=obj_src, r=rv, detail=detail[:300], extra=extra); break
+        if not out['reproduced'] and kind == 'C02.reach' and '.reach.' in name:
+            fb = replaylib.reach_fallback(hint_src, conf_src)
+            if fb: out.update(reproduced=True, obj=fb[0], r=fb[1], detail=fb[2], extra=extra); out['tried'].append(dict(bound='guided', obj=fb[0], r=fb[1], reproduced=True, detail=fb[2]))
     except Exception as e:
         out['error'] = f'{type(e).__name__}: {e}'[:300]
     return out
